@@ -671,3 +671,31 @@ package core
 //@ ensures r1 != nil && (typ == DutyAggregator || typ == DutySyncContribution) ==> ncalls(unmarshal) == 2
 //@ ensures r1 != nil && (typ == DutyAttester || typ == DutyProposer) ==> ncalls(unmarshal) == 1
 //@ ensures r1 == nil ==> ncalls(unmarshal) >= 1
+
+// ---- C14 (F-C14e): the unsigned proposal / aggregated attestation decoders yield well-formed values ----------------
+// a decoded unsigned proposal or aggregated attestation has the payload of its version (a JSON null payload is refused
+// at decode time: MarshalJSON and the other consumers dereference it)
+//@ spec func wfUProposal(x eth2api.VersionedProposal) bool = (x.Version == eth2spec.DataVersionPhase0 ==> x.Phase0 != nil) && (x.Version == eth2spec.DataVersionAltair ==> x.Altair != nil) && (x.Version == eth2spec.DataVersionBellatrix && !x.Blinded ==> x.Bellatrix != nil) && (x.Version == eth2spec.DataVersionBellatrix && x.Blinded ==> x.BellatrixBlinded != nil) && (x.Version == eth2spec.DataVersionCapella && !x.Blinded ==> x.Capella != nil) && (x.Version == eth2spec.DataVersionCapella && x.Blinded ==> x.CapellaBlinded != nil) && (x.Version == eth2spec.DataVersionDeneb && !x.Blinded ==> x.Deneb != nil) && (x.Version == eth2spec.DataVersionDeneb && x.Blinded ==> x.DenebBlinded != nil) && (x.Version == eth2spec.DataVersionElectra && !x.Blinded ==> x.Electra != nil) && (x.Version == eth2spec.DataVersionElectra && x.Blinded ==> x.ElectraBlinded != nil) && (x.Version == eth2spec.DataVersionFulu && !x.Blinded ==> x.Fulu != nil) && (x.Version == eth2spec.DataVersionFulu && x.Blinded ==> x.FuluBlinded != nil)
+//@ spec func wfUAtt(x eth2spec.VersionedAttestation) bool = (x.Version == eth2spec.DataVersionPhase0 ==> x.Phase0 != nil) && (x.Version == eth2spec.DataVersionAltair ==> x.Altair != nil) && (x.Version == eth2spec.DataVersionBellatrix ==> x.Bellatrix != nil) && (x.Version == eth2spec.DataVersionCapella ==> x.Capella != nil) && (x.Version == eth2spec.DataVersionDeneb ==> x.Deneb != nil) && (x.Version == eth2spec.DataVersionElectra ==> x.Electra != nil) && (x.Version == eth2spec.DataVersionFulu ==> x.Fulu != nil)
+//@ spec func wfUProposalPtr(x *eth2api.VersionedProposal) bool = (x.Version == eth2spec.DataVersionPhase0 ==> x.Phase0 != nil) && (x.Version == eth2spec.DataVersionAltair ==> x.Altair != nil) && (x.Version == eth2spec.DataVersionBellatrix && !x.Blinded ==> x.Bellatrix != nil) && (x.Version == eth2spec.DataVersionBellatrix && x.Blinded ==> x.BellatrixBlinded != nil) && (x.Version == eth2spec.DataVersionCapella && !x.Blinded ==> x.Capella != nil) && (x.Version == eth2spec.DataVersionCapella && x.Blinded ==> x.CapellaBlinded != nil) && (x.Version == eth2spec.DataVersionDeneb && !x.Blinded ==> x.Deneb != nil) && (x.Version == eth2spec.DataVersionDeneb && x.Blinded ==> x.DenebBlinded != nil) && (x.Version == eth2spec.DataVersionElectra && !x.Blinded ==> x.Electra != nil) && (x.Version == eth2spec.DataVersionElectra && x.Blinded ==> x.ElectraBlinded != nil) && (x.Version == eth2spec.DataVersionFulu && !x.Blinded ==> x.Fulu != nil) && (x.Version == eth2spec.DataVersionFulu && x.Blinded ==> x.FuluBlinded != nil)
+//@ spec func wfUAttPtr(x *eth2spec.VersionedAttestation) bool = (x.Version == eth2spec.DataVersionPhase0 ==> x.Phase0 != nil) && (x.Version == eth2spec.DataVersionAltair ==> x.Altair != nil) && (x.Version == eth2spec.DataVersionBellatrix ==> x.Bellatrix != nil) && (x.Version == eth2spec.DataVersionCapella ==> x.Capella != nil) && (x.Version == eth2spec.DataVersionDeneb ==> x.Deneb != nil) && (x.Version == eth2spec.DataVersionElectra ==> x.Electra != nil) && (x.Version == eth2spec.DataVersionFulu ==> x.Fulu != nil)
+
+//@ func NewVersionedProposal
+//@ props C14
+//@ ensures r1 == nil ==> wfUProposalPtr(proposal)
+//@ canary r1 != nil
+
+//@ func (p *VersionedProposal) UnmarshalJSON
+//@ props C14
+//@ ensures result == nil ==> wfUProposal(p.VersionedProposal)
+//@ canary result != nil
+
+//@ func NewVersionedAggregatedAttestation
+//@ props C14
+//@ ensures r1 == nil ==> wfUAttPtr(att)
+//@ canary r1 != nil
+
+//@ func (a *VersionedAggregatedAttestation) UnmarshalJSON
+//@ props C14
+//@ ensures result == nil ==> wfUAtt(a.VersionedAttestation)
+//@ canary result != nil
